@@ -2,7 +2,7 @@
    Model: Dev/Serial.v - Serial.update, the out-pipe (os.read of at most 22
    bytes), the EL6002 handshake (`react`) with arbitrary timing (oracle), and
    ghost histories of what was written / accepted / announced / delivered. *)
-From Verif Require Import Dev.Serial Dev.Serial_proofs.
+From Verif Require Import Dev.Serial Dev.Serial_proofs Dev.SerialLayout Dev.SerialLayout_proofs.
 
 (* For EVERY history of application writes and cycles, whatever the terminal's
    timing: the chunks the terminal took, then the chunk currently presented,
@@ -46,4 +46,40 @@ Example C28_nonvacuous :
   let o a n := ECycle {| or_init := true; or_accept := a; or_announce := n |} in
   let s := fold_left step [o true None; o true None; o true None; EWrite [1;2;3]; o false None; o false (Some [9;8]); o true None; o true None] sys0 in
   accepted s = [[1;2;3]] /\ delivered s = [[9;8]] /\ written s = [1;2;3] /\ s_pipe s = [].
+Proof. vm_compute. repeat split. Qed.
+
+(* ---- the two channels of one terminal (ebpfcat/terminals.py EL6002 / EL6022; descriptors REGENERATED from the source on every
+   run into Generated/SerialLayout.v).  The theorems above are about ONE channel; they carry over to a terminal with both
+   channels in use because a write of any process variable of one channel - whatever bytes, as many as the variable is wide -
+   leaves every byte of every variable of the other channel in the same image as it was. *)
+Theorem C28_EL6002_channels_independent : forall img c1 c2 d1 d2 bs j dflt,
+  In c1 EL6002_channels -> In c2 EL6002_channels -> c1 <> c2 -> In d1 EL6002_descs -> In d2 EL6002_descs -> d_sm d1 = d_sm d2 ->
+  Z.of_nat (length bs) = d_width d1 -> hi c1 d1 <= Z.of_nat (length img) -> lo c2 d2 <= Z.of_nat j < hi c2 d2 ->
+  nth j (wr img (Z.to_nat (lo c1 d1)) bs) dflt = nth j img dflt.
+Proof. exact EL6002_channels_independent. Qed.
+Print Assumptions C28_EL6002_channels_independent.
+
+Theorem C28_EL6022_channels_independent : forall img c1 c2 d1 d2 bs j dflt,
+  In c1 EL6022_channels -> In c2 EL6022_channels -> c1 <> c2 -> In d1 EL6022_descs -> In d2 EL6022_descs -> d_sm d1 = d_sm d2 ->
+  Z.of_nat (length bs) = d_width d1 -> hi c1 d1 <= Z.of_nat (length img) -> lo c2 d2 <= Z.of_nat j < hi c2 d2 ->
+  nth j (wr img (Z.to_nat (lo c1 d1)) bs) dflt = nth j img dflt.
+Proof. exact EL6022_channels_independent. Qed.
+Print Assumptions C28_EL6022_channels_independent.
+
+(* inside a channel the string variable does not reach the byte of the three handshake bits (distinct bits of one byte), and it
+   carries exactly the model's chunk size plus its length byte *)
+Theorem C28_channel_layout :
+  channel_ok EL6002_transmit_request EL6002_receive_accept EL6002_init_request EL6002_out_string = true /\
+  channel_ok EL6002_transmit_accept EL6002_receive_request EL6002_init_accept EL6002_in_string = true /\
+  channel_ok EL6022_transmit_request EL6022_receive_accept EL6022_init_request EL6022_out_string = true /\
+  channel_ok EL6022_transmit_accept EL6022_receive_request EL6022_init_accept EL6022_in_string = true /\
+  Z.of_nat chunk + 1 = d_width EL6002_out_string /\ Z.of_nat chunk + 1 = d_width EL6002_in_string /\
+  Z.of_nat chunk + 1 = d_width EL6022_out_string /\ Z.of_nat chunk + 1 = d_width EL6022_in_string.
+Proof. exact (conj EL6002_out_ok (conj EL6002_in_ok (conj EL6022_out_ok (conj EL6022_in_ok chunk_fits)))). Qed.
+Print Assumptions C28_channel_layout.
+
+(* not vacuous: two channels, eight variables each; writing channel 1's string into a 48-byte image keeps channel 2's control byte *)
+Example C28_layout_nonvacuous :
+  length EL6002_channels = 2%nat /\ length EL6002_descs = 8%nat /\
+  nth 24 (wr (repeat 7 48) (Z.to_nat (lo (0, 0) EL6002_out_string)) (repeat 0 23)) 99 = 7.
 Proof. vm_compute. repeat split. Qed.
